@@ -19,6 +19,7 @@ class Ctx:
         self.n = leaf_start
         self.leaves = []
         self.plain_leaves = plain_leaves
+        self.keysets = []  # key lists already used in this tree (re-used in another order to make sibling dicts with equal key SETS)
 
     def leaf(self):
         self.n += 1
@@ -35,6 +36,20 @@ def swarm_ctx(t, **kw):
 
 
 def gen_keys(t, n, ctx):
+    if ctx.keysets and t.draw(3, 'reuse-keyset') == 2:
+        prev = ctx.keysets[t.draw(len(ctx.keysets), 'which-keyset')]
+        if len(prev) >= min(n, 2) or n <= len(prev):
+            ks = t.shuffle(prev, 'reorder-keyset')
+            if t.draw(2, 'reverse-keyset'):
+                ks = list(reversed(ks))
+            return ks
+    ks = _gen_keys(t, n, ctx)
+    if len(ks) >= 2 and len(ctx.keysets) < 4:
+        ctx.keysets.append(list(ks))
+    return ks
+
+
+def _gen_keys(t, n, ctx):
     style = t.choice(ctx.key_styles, 'keystyle')
     if style == 'str':
         pool = ['a', 'b', 'c', 'd', 'e', 'f', 'g', 'h']
@@ -73,6 +88,10 @@ def gen_tree(t, budget, ctx, depth=0):
     if kind == 'nt':
         cls = t.choice(U.NT_CLASSES, 'ntcls')
         n = len(cls._fields)
+    keys = None
+    if kind in ('dict', 'odict', 'ddict'):
+        keys = gen_keys(t, n, ctx)
+        n = len(keys)  # a re-used key set keeps its size so that two dict nodes can have EQUAL key sets in different orders
     children = [gen_tree(t, per if kind != 'structseq' else 1, ctx, depth + 1) for _ in range(n)]
     if kind == 'tuple':
         return tuple(children)
@@ -82,7 +101,6 @@ def gen_tree(t, budget, ctx, depth=0):
         ml = t.draw(3, 'maxlen')
         return deque(children, maxlen=None if ml == 0 else max(len(children), 1) + ml - 1)
     if kind in ('dict', 'odict', 'ddict'):
-        keys = gen_keys(t, n, ctx)
         items = list(zip(keys, children))
         if kind == 'dict':
             return dict(items)
